@@ -864,6 +864,26 @@ PROPS = {
 EXTRA = {"C17": c17_extra, "C04": c04_extra, "C05": c04_extra}
 
 
+# what lies outside the claim of each check (reported in the evidence next to the explored bounds)
+OUTSIDE = {
+    "C01": "n = 13, 14 for the dynamic Lut; n > 12; allocation failure",
+    "C02": "composition of the per-producer inductive steps over finite histories (pen-and-paper); n > 12; producers decided elsewhere: random() (C19), Lut::from(&Soes/&Esop) (C13/C15), canonization results beyond n = 3",
+    "C03": "n = 13, 14 for the dynamic Lut; symbolic-index queries for swap at n >= 11 and everything at n = 12 are optional (the concrete-index harnesses cover those sizes)",
+    "C04": "end-to-end behaviour for n >= 5 (NPN n >= 4) is covered only through the lemmas L0 (dispatch), L1 (walk, short arbitrary sequences), L2 (sequence coverage) and kernel exactness (C01, C03, C08), whose composition is a stated argument; n >= 9 entirely",
+    "C05": "same composition caveat as C04; n >= 9 entirely",
+    "C06": "n > 12; symbolic-v queries at n >= 11 (concrete v used instead)",
+    "C08": "lexicographic order of hex strings beyond n = 3 (follows from C09's fixed-width MSB-first rendering where that is decided); complete iterator runs for n >= 4 (2^(2^n) items) -- replaced by the arbitrary-state successor lemma",
+    "C09": "to_bin_string, Display/LowerHex/Binary wrappers, the explicit parse(print(f)) round trip, printing for n >= 6 (word order of multi-word tables included), parsing for n >= 8",
+    "C10": "bdd_complexity pairs (C07 not applicable); canonization triples beyond n = 3 (4 thorough); differential operator harnesses at n >= 9 are optional under caps",
+    "C11": "n = 13, 14 for the dynamic Lut",
+    "C12": "Cube::all(n) for n >= 6, implies_lut for n >= 7; pos_vars/neg_vars iterators and Display (C16 not applicable)",
+    "C13": "Soes with several multi-variable terms (one general from_cubes term only in thorough, capped); Ecube::all(n) for n >= 5",
+    "C15": "Esop::from(&Lut) for n >= 4 (n = 3 only the monomial count, capped); operators on Esops whose cubes are not constructor-built literals/constants",
+    "C17": "n > 8; indices beyond n + 70 other than usize::MAX; bdd_complexity on same-size lists",
+    "C19": "fairness of thread_rng itself, the 2^-200 statistical bound, multi-threaded schedules; any RNG API other than thread_rng().next_u64() (the stub would not compile: reported, never an alarm)",
+}
+
+
 def harnesses(prop, tier, seed=0):
     allh = PROPS[prop](tier, seed)
     if tier == "quick":
